@@ -130,6 +130,33 @@ def seqapi_phase(run):
         d.process(cases[i:i + B])
         if d.real >= 1: break          # violations found and reported: no need to wade through the rest (a blocking mutant costs seconds per case)
     d.finish()
+    # BACK PRESSURE PROBES: a claim that must block by the capacity rule is issued anyway; it must not return (the harness answers
+    # -888 after 1.5 s). Sequencers without any gating sequence included (then the minimum is 0).
+    probes = []
+    for kind, size, ng in ((1, 4, 0), (1, 8, 1), (0, 4, 1), (1, 2, 2)) if not run.thorough else ((1, 4, 0), (1, 8, 1), (0, 4, 1), (1, 2, 2), (0, 8, 0), (1, 16, 0), (0, 2, 1), (1, 64, 1)):
+        ops = []
+        if kind == 1:
+            # multi: claims of one until size - 1 are outstanding (the most the rule allows), some published out of order, then one more
+            for q in range(1, size): ops += [1, 1, 0]
+            for q in range(size - 1, 0, -1):
+                if q % 2 == 0: ops += [2, q, q]
+            ops += [4, 1, 0]
+        else:
+            # single: with the gating cursor at 0 a claim may end at `size`; the next one must wait
+            ops += [1, size, 0, 2, 0, size - 1, 4, 2, 0]
+        probes.append(f"seqapi {kind} {size} {ng} " + fmt(ops))
+    n_blocked = 0
+    for ln in probes:
+        rc, outs, err = run_lines(b, [ln], line_timeout=15)
+        run.cov["evaluations"] += 1
+        got = outs[0].strip() if outs else "<no answer>"
+        if got == "-888":
+            n_blocked += 1; continue
+        run.violation({"kind": "property-oracle-failed-on-implementation", "what": "a claim that must wait for capacity (ring full by the documented rule) RETURNED; sequences handed out beyond "
+                       "the capacity alias slots and ready bits of sequences that are still outstanding", "harness_line": ln, "expected": "-888 (the call does not return)", "got": got,
+                       "probe": True, "rerun": "cd /verif && python3 bin/check.py C14 --replay <this file>"})
+        break
+    dist["seqapi_back_pressure_probes"] = {"issued": len(probes), "blocked_as_required": n_blocked}
     return dist
 
 
@@ -144,6 +171,12 @@ _replay_ring = replay_ring("C14")
 def replay(path):
     import json
     d = json.load(open(path))
+    if d.get("probe"):
+        run = Run("C14"); b, log = cargo_build("ds")
+        rc, outs, err = run_lines(b, [d["harness_line"]], line_timeout=15)
+        got = outs[0].strip() if outs else "<no answer>"
+        print("expected: -888 (blocked)   got:", got)
+        print("REPRODUCED" if got != "-888" else "not reproduced"); return 1 if got != "-888" else 0
     if "harness_line" in d and d["harness_line"].startswith("seqapi"):
         run = Run("C14"); ensure_driver(); b, log = cargo_build("ds")
         return generic_replay(Differential(run, {"release": b}, lambda c: "seqapi_model_entry", None, check_entry=lambda c: "seqapi_check_entry",
